@@ -63,12 +63,12 @@ Definition len64_impl (nblocks : N) (num : nat) : list N :=
   be32 (N.shiftr nblocks 23) ++ be32 (w64 (N.shiftl nblocks 9 + N.shiftl (N.of_nat num) 3)).
 
 Definition sm3_ctx := ctx (list N).
-Definition sm3_init : sm3_ctx := init (list N) sm3_iv.
+Definition sm3_init : sm3_ctx := init (list N) sm3_iv 0.
 Definition sm3_update : sm3_ctx -> list N -> sm3_ctx := update (list N) sm3_compress 64.
 Definition sm3_finish : sm3_ctx -> list N :=
   finish (list N) sm3_compress sm3_out 64 8 len64_impl.
 Definition sm3 : list N -> list N :=
-  md_hash (list N) sm3_compress sm3_out sm3_iv 64 8 len64_spec.
+  md_hash (list N) sm3_compress sm3_out sm3_iv 64 8 len64_spec 0.
 
 (* one-shot as the C callers do it: init; update(whole); finish *)
 Definition sm3_oneshot (m : list N) : list N := sm3_finish (sm3_update sm3_init m).
